@@ -1,5 +1,5 @@
 """C13 — size limits and block-size choice: the borders (structural clauses only)."""
-from ..rules import generator as gen, engine
+from ..rules import generator as gen, engine, piece
 
 EXPL = ("Decides the *borders* named in the property from the exact branch conditions in MIR with rustc-evaluated constants: "
         "set_fixed_input_size refuses exactly size > 192 GiB (206158430208); finalisation returns InputSizeTooLarge exactly for "
@@ -10,7 +10,9 @@ EXPL = ("Decides the *borders* named in the property from the exact branch condi
         "guess halves exactly while the candidate context has < HALF_SIZE pieces (same named constant), starting from "
         "min(size-based index, bhidx_end-1); the level walk starts only when roll+1 != 0, ((roll+1)/3)&roll_mask == 0 and (roll+1)%3 == 0, "
         "with h shifted by bhidx_start once and by 1 per level, continuing only while the level bit is clear; the digest takes block "
-        "hash 1 from context L, block hash 2 from context L+1 (or the two single-piece sources) and the block size from L. NOT decided: the block-size choice "
+        "hash 1 from context L, block hash 2 from context L+1 (or the two single-piece sources) and the block size from L; the dedicated last-piece hash "
+        "is started exactly at a first piece beyond the fork limit when that limit is the largest block size and not yet started, is fed "
+        "every byte while active, and is what block hash 2 takes when there is no next context and L > 0 (step table / digest rows). NOT decided: the block-size choice "
         "and the last-piece hash as values at large indices (arithmetic over the input).")
 
 
@@ -27,4 +29,8 @@ def run(ctx):
         ctx.guard("C13", "step", lambda: engine.step_thresholds(ctx, prog))
         ctx.guard("C13", "trigger", lambda: engine.trigger_and_levels(ctx, prog))
         ctx.guard("C13", "digest", lambda: engine.digest_sources(ctx, prog))
+        ctx.guard("C13", "digest-last", lambda: piece.digest_last_piece(ctx, prog))
+        if not c.startswith("unsafe"):
+            # (the pointer engine of `unsafe` is tied to the index engine by SA-ENGINEMAP under C14)
+            ctx.guard("C13", "piece", lambda: piece.piece_effects(ctx, prog))
     return ctx.finish(EXPL, ["rustc's compile-time evaluation of MAX_INPUT_SIZE / MIN_RECOMMENDED_INPUT_SIZE", "u64_ilog2 computes floor(log2) (checked arithmetically by the repository's own tests, not here)"])
